@@ -112,7 +112,18 @@ fn sample_strategy(_t: Tier) -> BoxedStrategy<LlrCase> {
     });
     let pos = prop_oneof![4 => polar, 4 => near_unit, 2 => special];
     let sigma = prop_oneof![3 => (-3.0f64..3.0).prop_map(|l| 10f64.powf(l)), 3 => 0.05f64..1.5];
-    (pos, sigma).prop_map(|((re, im), sigma)| LlrCase { re: Fx(re), im: Fx(im), sigma: Fx(sigma) }).boxed()
+    // extreme scales: sigma anywhere in [1e-70, 1e70] with the sample scaled so that |r|/sigma^2 (the
+    // magnitude of the LLRs) stays moderate, i.e. samples far inside or far outside the unit circle
+    let scaled = ((-70.0f64..70.0), (-3.0f64..3.0), 0.0f64..(2.0 * PI)).prop_map(|(ls, lt, a)| {
+        let sigma = 10f64.powf(ls);
+        let r = 10f64.powf(lt) * sigma * sigma;
+        ((r * a.cos(), r * a.sin()), sigma)
+    });
+    prop_oneof![
+        5 => (pos, sigma),
+        1 => scaled,
+    ]
+    .prop_map(|((re, im), sigma)| LlrCase { re: Fx(re), im: Fx(im), sigma: Fx(sigma) }).boxed()
 }
 
 fn check_llr(c: &LlrCase, p: &mut Probe) -> Check {
@@ -143,6 +154,7 @@ fn check_llr(c: &LlrCase, p: &mut Probe) -> Check {
     ensure!((lb[0] - want).abs() <= 4.0 * f64::EPSILON * want.abs(), "bpsk-llr", "BPSK LLR at r = {}, sigma = {sigma:e}: {} but -2r/sigma^2 = {want}", y.re, lb[0]);
     let on_point = TABLE.iter().any(|t| (Complex::new(t.1.cos(), t.1.sin()) - y).norm() < 1e-12);
     p.class_if(soft, "soft-region");
+    p.class_if(!(1e-3..=1e3).contains(&sigma), "extreme-sigma");
     p.class_if(on_point, "on-constellation-point");
     if soft && !on_point {
         p.nontrivial();
@@ -176,7 +188,14 @@ fn check_seq(c: &SeqCase, p: &mut Probe) -> Check {
     let sigma = c.sigma.0;
     let lay = c.layout;
     let gbits: Vec<GF2> = gf(&c.bits).to_vec();
-    let s = guarded(|| with_layout(&gbits, GF2::one(), lay, |v| Psk8Modulator::new().modulate(&v))).map_err(|e| Fail::new("panic", format!("8PSK modulate panicked (bit array layout {}): {e}", layout_name(lay))))?;
+    // one modulator object, used first on a shorter sequence (objects are reused frame after frame)
+    let modulator = Psk8Modulator::new();
+    if c.bits.len() >= 6 {
+        let half = c.bits.len() / 6 * 3;
+        let first = modulator.modulate(&gf(&c.bits[..half]));
+        ensure!(first.len() * 3 == half, "symbol-count", "{half} bits give {} symbols", first.len());
+    }
+    let s = guarded(|| with_layout(&gbits, GF2::one(), lay, |v| modulator.modulate(&v))).map_err(|e| Fail::new("panic", format!("8PSK modulate panicked (bit array layout {}): {e}", layout_name(lay))))?;
     ensure!(s.len() * 3 == c.bits.len(), "symbol-count", "{} bits give {} symbols", c.bits.len(), s.len());
     for (k, sym) in s.iter().enumerate() {
         let want = own_point([c.bits[3 * k], c.bits[3 * k + 1], c.bits[3 * k + 2]]);
@@ -247,7 +266,7 @@ pub fn property() -> Property {
             }),
             Box::new(Sub {
                 name: "llr",
-                rule: "received samples: polar with |r| log-uniform in [1e-6, 1e3], |r| in [0.5, 1.6], exact constellation points, decision boundaries, origin, axes; sigma log-uniform in [1e-3, 1e3] or uniform in [0.05, 1.5], subject to |r|/sigma^2 <= 1e12; oracle: own max-shifted 4-term log-sum-exp over the label partitions (= posterior log-ratio since |s| = 1), tolerance 64 eps (|r|/sigma^2 + 1); BPSK: -2r/sigma^2 within 4 eps relative; non-trivial = sample off the constellation with some |LLR| < 20",
+                rule: "received samples: polar with |r| log-uniform in [1e-6, 1e3], |r| in [0.5, 1.6], exact constellation points, decision boundaries, origin, axes; sigma log-uniform in [1e-3, 1e3] or uniform in [0.05, 1.5], subject to |r|/sigma^2 <= 1e12; one case in six at an extreme scale (sigma log-uniform in [1e-70, 1e70], |r| = t sigma^2 with t log-uniform in [1e-3, 1e3]: samples far inside or outside the unit circle with moderate LLRs); oracle: own max-shifted 4-term log-sum-exp over the label partitions (= posterior log-ratio since |s| = 1), tolerance 64 eps (|r|/sigma^2 + 1); BPSK: -2r/sigma^2 within 4 eps relative; non-trivial = sample off the constellation with some |LLR| < 20",
                 cases: |t| t.pick(3_000_000, 100_000_000),
                 strategy: sample_strategy,
                 check: check_llr,
